@@ -31,6 +31,7 @@ def main(tier, seed, args):
     budget = 110 if tier == 'quick' else 1500
     configs = []
     cfg, pc = cfg_hashes(1, 'free_absent')
+    cfg['pay_outcomes'] = ('complete', 'pending', 'failed', 'failed_warning', 'error:210')
     configs.append(('hashes[1 htlc, free]', cfg, pc, [SettleOwnHash(), Coverage(['pay', 'response:Resolve', 'response:Continue'])], {}))
     cfg, pc = cfg_hashes(2, 'free_absent')
     configs.append(('hashes[2 htlcs, free]', cfg, pc, [SettleOwnHash(), Coverage(['pay', 'response:Resolve'])], {}))
